@@ -570,7 +570,7 @@ var clauseKeywords = map[string]bool{
 	"requires": true, "ensures": true, "assigns": true, "loop": true, "inline": true,
 	"invariant": true, "guarded_by": true, "opaque": true, "trusted": true, "may_panic": true,
 	"wire": true, "noverify": true, "sort": true, "note": true, "let": true, "import": true,
-	"pure": true, "callassert": true, "havoc": true, "witness": true,
+	"pure": true, "callassert": true, "havoc": true, "witness": true, "ghost": true,
 }
 
 // extractContractLines pulls the "//@" lines out of a Go source or .spec file
